@@ -105,7 +105,13 @@ def run_relation(rel, ctx, runner, extra_inputs=()):
     return dict(name=rel.name, kind=rel.kind, evaluations=len(inputs), corpus=n_corpus,
                 distinct=len(keys), distinct_nontrivial=len(nontrivial_keys), stats=stats,
                 failures=fails, error=err, wall_s=round(time.time() - t0, 2),
-                samples=[dict(input=inputs[i], observed=obs_list[i]) for i in _sample_idx(len(inputs))])
+                samples=[dict(input=_trim(inputs[i]), observed=_trim(obs_list[i])) for i in _sample_idx(len(inputs))])
+
+
+def _trim(x, limit=1800):
+    """samples are for a reader: keep them readable"""
+    t = json.dumps(x, default=str)
+    return x if len(t) <= limit else t[:limit] + ' ...(truncated)'
 
 
 def _sample_idx(n):
